@@ -125,8 +125,19 @@ func (v *Verifier) tryReplay(prop, name string, g *Group, cl *Claim, repo string
 			lines := strings.Split(string(data), "\n")
 			for g := 4; g+1 < len(parts); g += 2 {
 				done := false
+				// an anchor "A>>B" is the first line containing B at or after the first line containing A
+				anchor, from := parts[g], 0
+				if j := strings.Index(anchor, ">>"); j >= 0 {
+					for i, l := range lines {
+						if strings.Contains(l, anchor[:j]) {
+							from = i
+							break
+						}
+					}
+					anchor = anchor[j+2:]
+				}
 				for i, l := range lines {
-					if strings.Contains(l, parts[g]) {
+					if i >= from && strings.Contains(l, anchor) {
 						lines = append(lines[:i+1], append([]string{parts[g+1]}, lines[i+1:]...)...)
 						done = true
 						instrNote += fmt.Sprintf("overlay instrumentation of %s: inserted %q after line %d (%s)\n", parts[3], parts[g+1], i+1, strings.TrimSpace(l))
